@@ -185,3 +185,23 @@ CHECKS["C07"] = {
                   "and over the free-module group the monitor confirms the refusal happens before the final check is evaluated.",
     "level_note": "Held on the executed substitutions. Trusted: harness arithmetic oracle (u64 comparisons).",
 }
+
+CHECKS["C08"] = {
+    "title": "Batch weighting: defects in different proofs can never cancel",
+    "level": "exploration",
+    "technique": "runtime monitoring: batch weights read off the verifier's final MSM over the free-module group; ratio-sensitivity oracle; adaptive cancellation attack driven by the weights observed on the previous run, residual explained coordinate-wise",
+    "design_ref": "DESIGN.md section 4 C08",
+    "legs": [{"name": "fm-weights", "shards": 16}, {"name": "fm-round0", "shards": 16}, {"name": "ris-round0", "shards": 16}],
+    "rule": "weights leg: one case = one observed verification run of a batch of 2..5 proofs (base run, run after changing one response scalar, or one round of the adaptive attack on a pair (i, j) "
+            "and blinding coordinate k); non-trivial = the final multiscalar multiplication was captured and every member's weight identified; round0 legs: one case = one (batch, pair, coordinate) "
+            "with defects +delta / -delta; distinct = distinct (batch, pair, coordinate, round / changed scalar)",
+    "require": {"quick": {"batches_observed": 200, "weight_ratios_compared": 3000, "attack_rounds": 10000, "residuals_explained_by_weights": 10000, "equal_opposite_pairs": 1500},
+                "thorough": {"batches_observed": 2000, "weight_ratios_compared": 30000, "attack_rounds": 500000, "residuals_explained_by_weights": 500000, "equal_opposite_pairs": 15000}},
+    "assumptions": COMMON_ASSUMPTIONS + ["weights are only observable over the free-module group; on Ristretto only the non-adaptive equal-and-opposite attack is run",
+                                         "the attack perturbs d1 components (defects that leave all Fiat-Shamir challenges unchanged and contribute exactly w*delta on one blinding-generator coordinate)"],
+    "level_text": "Reads the factor with which each proof's equation enters the real verifier's batch check (the scalar paired with that proof's B in the captured final multiscalar "
+                  "multiplication over the free-module group): every factor is non-zero; the ratio of two proofs' factors changes whenever r1, s1 or any d1 component of either changes; "
+                  "and a cancellation attack on every pair and blinding coordinate that recomputes its offsetting defect from the factors observed on the previous run is rejected in every "
+                  "round, with the captured residual equal to w_i*delta_i + w_j*delta_j on exactly that coordinate.",
+    "level_note": "Held on the executed runs; an attacker model limited to d1 defects. Trusted: FmPoint MSM log.",
+}
